@@ -323,7 +323,13 @@ func runC20(p *core.Prog, r *core.Report) {
 				if !ok {
 					return
 				}
+				isClose := false
 				if b, ok := c.Call.Value.(*ssa.Builtin); ok && b.Name() == "close" {
+					isClose = true
+				} else if !c.Call.IsInvoke() && cancelOf(c.Call.Value, gb.bind) != nil {
+					isClose = true // the exit channel is a cancellable context's Done()
+				}
+				if isClose {
 					nClose++
 					wcut := sx.Cut{Instrs: map[ssa.Instruction]bool{}}
 					sx.Instrs(fn, func(i2 ssa.Instruction) {
@@ -843,8 +849,43 @@ func goBodies(p *core.Prog, fn *ssa.Function) []goBody {
 }
 
 // closedAfterWait: ch is closed (only) in a closure of fn after cmd.Wait.
+// cancelOf: v is (possibly through a captured variable) the cancel function of a context.WithCancel call: returns
+// that call.
+func cancelOf(v ssa.Value, bind map[ssa.Value]ssa.Value) *ssa.Call {
+	v = sx.Unspill(v)
+	if fv, ok := v.(*ssa.FreeVar); ok {
+		if bnd := sx.FreeVarBinding(fv); bnd != nil {
+			v = sx.Unspill(bnd)
+		}
+	}
+	if a, ok := bind[v]; ok {
+		v = sx.Unspill(a)
+	}
+	if e, ok := v.(*ssa.Extract); ok && e.Index == 1 {
+		if c, ok := e.Tuple.(*ssa.Call); ok && sx.CalleeName(c) == "context.WithCancel" {
+			return c
+		}
+	}
+	return nil
+}
+
+// doneOf: ch is `ctx.Done()` of the context made by a context.WithCancel call: returns that call.
+func doneOf(ch ssa.Value) *ssa.Call {
+	c, ok := sx.Unspill(ch).(*ssa.Call)
+	if !ok || !c.Call.IsInvoke() || c.Call.Method.Name() != "Done" {
+		return nil
+	}
+	if e, ok := sx.Unspill(c.Call.Value).(*ssa.Extract); ok && e.Index == 0 {
+		if w, ok := e.Tuple.(*ssa.Call); ok && sx.CalleeName(w) == "context.WithCancel" {
+			return w
+		}
+	}
+	return nil
+}
+
 func closedAfterWait(p *core.Prog, fn *ssa.Function, ch ssa.Value) bool {
 	ch = sx.Unspill(ch)
+	withCancel := doneOf(ch)
 	if _, ok := ch.(*ssa.MakeChan); !ok {
 		if ct, ok := ch.(*ssa.ChangeType); ok {
 			ch = sx.Unspill(ct.X)
@@ -856,6 +897,10 @@ func closedAfterWait(p *core.Prog, fn *ssa.Function, ch ssa.Value) bool {
 			c, ok := in.(*ssa.Call)
 			if !ok {
 				return
+			}
+			// cancelling the context whose Done() the arm receives from closes that channel
+			if withCancel != nil && !c.Call.IsInvoke() && cancelOf(c.Call.Value, gb.bind) == withCancel {
+				found = true
 			}
 			if b, ok := c.Call.Value.(*ssa.Builtin); ok && b.Name() == "close" {
 				arg := sx.Unspill(c.Call.Args[0])
